@@ -314,9 +314,16 @@ class InterruptPlan:
         self.wait_steps = 0
         self.starve_after = starve_after
         self.simos = None
+        self.raised = 0
 
     def cur(self):
         return self.specs[self.i] if self.i < len(self.specs) else None
+
+    def _raised_in_main(self):
+        """A KeyboardInterrupt is about to be raised in the calling thread."""
+        self.raised += 1
+        if self.starve_after and self.raised >= self.starve_after and self.sim is not None:
+            self.sim.starve_workers = True
 
     def on_main_line(self):
         s = self.cur()
@@ -354,10 +361,16 @@ class InterruptPlan:
             raise KeyboardInterrupt()
         m = sim.main
         ignored = self.simos is not None and self.simos.main_sigint == 'ignore'
-        self.rec.ev('sigint', n, m.blocked_in or 'running', self.rec.main_lines, 'ignored-by-caller' if ignored else 'delivered')
+        masked = self.simos is not None and self.simos.main_blocked and not ignored
+        self.rec.ev('sigint', n, m.blocked_in or 'running', self.rec.main_lines,
+                    'ignored-by-caller' if ignored else ('pending-in-caller' if masked else 'delivered'))
         sim.trace.append(('sigint', n, m.blocked_in or 'running'))
         self.rec.fired('sigint-while-' + (m.blocked_in or 'running'))
         for w in sim.entities:
+            if w.kind == 'worker' and w.alive and w.tags.get('sigint_blocked'):
+                w.tags['sigint_pending'] = True          # stays pending until the child unblocks it
+                self.rec.fired('sigint-child-blocked')
+                continue
             if w.kind == 'worker' and w.alive and w.sigint == 'default':
                 w.pending_exc = KeyboardInterrupt()
                 self.rec.ev('sigint-child', w.name, w.phase, w.node)
@@ -366,8 +379,14 @@ class InterruptPlan:
             # the calling process has set SIGINT to SIG_IGN at this instant: the signal is discarded
             self.rec.fired('sigint-discarded-by-caller')
             return
-        if self.starve_after and n >= self.starve_after:
-            sim.starve_workers = True
+        if masked:
+            # blocked in the calling thread: pending (standard signals do not queue: several arrivals
+            # collapse into one), raised when the mask is restored
+            self.simos.main_pending_sigint = True
+            self.rec.fired('sigint-pending-in-caller')
+            self.simos.on_main_unblocked = self._raised_in_main
+            return
+        self._raised_in_main()
         if raise_now:
             raise KeyboardInterrupt()
         m.pending_exc = KeyboardInterrupt()
